@@ -47,7 +47,7 @@ type c11Key struct {
 }
 
 func runC11(r *vc.Run, replay string) {
-	r.Rule = "settings = {defaults (limit 10000, 1 s, 10 workers), small buffers (limit 6, 100 ms, channel 8, 1 worker, worker buffer 1), tiny (limit 3, 50 ms, channel 4, 2 workers, buffer 1)} x scenarios {plain, burst of concurrent requests, duplicates, transient DELETE errors (1..3), database unreachable and pooled connections killed for a while, resource registered only later} over 3 resources, xids sharing branch ids and branch ids sharing xids, with uncommitted neighbours; verdicts: every request answered PhaseTwo_Committed; after the faults stopped and the worker had 40 clean-interval ticks (at least 6 s) without deleting anything more, every committed (resource, xid, branch) row is gone (bounded restatement of 'eventually'); no other row ever disappears; distinct_nontrivial = distinct (settings, scenario, request count class) signatures"
+	r.Rule = "settings = {defaults (limit 10000, 1 s, 10 workers), small buffers (limit 6, 100 ms, channel 8, 1 worker, worker buffer 1), tiny (limit 3, 50 ms, channel 4, 2 workers, buffer 1)} x scenarios {plain, burst of concurrent requests, duplicates, transient DELETE errors (1..3), DELETEs that hang for eight clean intervals while further commits arrive, database unreachable and pooled connections killed for a while, resource registered only later} over 3 resources, xids sharing branch ids and branch ids sharing xids, with uncommitted neighbours; verdicts: every request answered PhaseTwo_Committed; after the faults stopped and the worker had 40 clean-interval ticks (at least 6 s) without deleting anything more, every committed (resource, xid, branch) row is gone (bounded restatement of 'eventually'); no other row ever disappears; distinct_nontrivial = distinct (settings, scenario, request count class) signatures"
 	r.Assumptions = []string{"'eventually' is restated as: within 40 clean-interval ticks (>= 6 s) of worker inactivity after the last fault; a row still present then counts as lost", "undo_log rows are planted directly; the resource manager accepts BranchCommit for any (xid, branch, resource)"}
 	cfgs := []c11Cfg{
 		{"defaults", 10000, "1s", 10000, 10, 1000, time.Second},
@@ -105,7 +105,7 @@ func c11Batch(r *vc.Run, bi int, cfg c11Cfg) {
 	if v := devN(); v > 0 {
 		rounds = v
 	}
-	scen := []string{"plain", "burst", "duplicates", "delete-error", "db-unreachable", "late-resource"}
+	scen := []string{"plain", "burst", "duplicates", "delete-error", "delete-stall", "db-unreachable", "late-resource"}
 	lateOpened := false
 	for round := 0; round < rounds; round++ {
 		for _, sc := range scen {
@@ -204,6 +204,27 @@ func c11Scenario(env *c11Env, rnd *vc.Rand, name, sc string, lateOpened bool) bo
 				return nil
 			}
 		}
+	case "delete-stall":
+		// the first two DELETEs hang for eight clean intervals (a lock wait): the workers are busy while further
+		// commits are accepted and handed over
+		failLeft = 2
+		for _, db := range env.dbs {
+			db.E.Inject = func(j *mm.JournalEntry) *mm.Action {
+				if j.Kind != "DELETE" || !strings.Contains(strings.ToLower(j.SQL), "undo_log") {
+					return nil
+				}
+				mu.Lock()
+				stall := failLeft > 0
+				if stall {
+					failLeft--
+				}
+				mu.Unlock()
+				if stall {
+					time.Sleep(8 * cfg.Tick)
+				}
+				return nil
+			}
+		}
 	case "db-unreachable":
 		env.dbs[0].S.SetRefuse(true)
 		env.dbs[0].S.KillAll(nil)
@@ -255,6 +276,14 @@ func c11Scenario(env *c11Env, rnd *vc.Rand, name, sc string, lateOpened bool) bo
 			send(k)
 			send(k)
 		}
+	case "delete-stall":
+		// a first wave that occupies the workers, the rest in small waves while they hang
+		for i, k := range commit {
+			if i > 0 && i%3 == 0 && i <= 12 {
+				time.Sleep(2 * cfg.Tick)
+			}
+			send(k)
+		}
 	default:
 		for _, k := range commit {
 			send(k)
@@ -273,7 +302,7 @@ func c11Scenario(env *c11Env, rnd *vc.Rand, name, sc string, lateOpened bool) bo
 	}
 	// stop the faults
 	switch sc {
-	case "delete-error":
+	case "delete-error", "delete-stall":
 		mu.Lock()
 		failLeft = 0
 		mu.Unlock()
